@@ -72,7 +72,10 @@ def run(ctx, chk):
                     "a membership card is reported although a payment application may be listed", "under subs.is_empty()", f.sp(bb))
         # payload is the uid variable
         pay = f.ex.operand(st["rv"]["ops"][0])
-        chk.require(pay[0] == "var" and pay[1] == "uuid" or (pay[0] == "path" and pay[1] == "uuid"), "C18/member-payload",
+        pay_ok = (pay[0] in ("var", "path") and pay[1] == "uuid") or \
+            (pay[0] == "call" and pay[1] in ("alloc::string::ToString::to_string", "alloc::borrow::ToOwned::to_owned") and
+             any(x[0] in ("var", "path") and x[1] == "uuid" for x in walk(pay)))
+        chk.require(pay_ok, "C18/member-payload",
                     "CardInfo::MembershipCard", "the membership id is %s, not the processed uid" % show(pay)[:80], "uuid", f.sp(bb),
                     nontrivial=False)
     uid_chain(chk, f)
@@ -96,19 +99,21 @@ def run(ctx, chk):
 
 
 def uid_chain(chk, f):
-    uu = [l for l, loc in enumerate(f.b.locals) if loc.get("name") == "uuid" and ty_str(loc["ty"]) == "alloc::string::String"]
-    if not chk.require(len(uu) == 1, "C18/uid-variable", "read_card", "uid variable not found (found %d)" % len(uu), "", f.sp()):
+    # the uid may live in one reassigned variable or in a chain of shadowed bindings
+    uu = [l for l, loc in enumerate(f.b.locals) if loc.get("name") == "uuid" and
+          ty_str(loc["ty"]) in ("alloc::string::String", "&str", "&alloc::string::String")]
+    if not chk.require(len(uu) >= 1, "C18/uid-variable", "read_card", "uid variable not found", "", f.sp()):
         return
-    l = uu[0]
     defs = []
     seen = set()
-    for d in f.tr.defs.get(l, []):
-        e = f.ex.rvalue(d[3]["rv"]) if d[2] == "assign" else f.call_expr(d[3], d[0])
-        key = show(e)
-        if key in seen:
-            continue
-        seen.add(key)
-        defs.append((d[0], e))
+    for l in uu:
+        for d in f.tr.defs.get(l, []):
+            e = f.ex.rvalue(d[3]["rv"]) if d[2] == "assign" else f.call_expr(d[3], d[0])
+            key = show(e)
+            if key in seen:
+                continue
+            seen.add(key)
+            defs.append((d[0], e))
     kinds = {}
     for bb, e in defs:
         calls = [x[1] for x in walk(e) if x[0] == "call"]
